@@ -25,7 +25,8 @@ BUDGET = {
 }
 
 NAME_SETS = [('hma', 'hmb', 'hmc'), ('hm', 'hmb', 'hm1'), ('hm', 'hm_b', 'hm_'), ('m1', 'm1b', 'm10'), ('hmaa', 'hmb', 'hma'), ('hmb1', 'hmb', 'hmb10')]
-OPS = ['load', 'transpile', 'transpile', 'transpile', 'unload', 'main', 'main', 'type_of_all', 'query', 'raw_unload_dep']
+REJECTED_MAIN = "def zz_bad(a_z: int) -> int:\n\tv_z: list[int] = [a_z]\n\td_z: dict[str, int] = {'k': a_z}\n\treturn v_z.nope_z() + undefined_z\n"  # UnresolvedSymbol inside transpile, after templates were rendered
+OPS = ['rejected_main', 'load', 'transpile', 'transpile', 'transpile', 'unload', 'main', 'main', 'type_of_all', 'query', 'raw_unload_dep']
 
 
 @st.composite
@@ -58,7 +59,7 @@ def reference(scratch: str, proj: str, mains: list[str], hashseed: str, modules:
 	from vf import env
 	job = os.path.join(scratch, f'job{hashseed}.json')
 	with open(job, 'w') as f:
-		json.dump({'proj': proj, 'modules': modules, 'mains': mains}, f)
+		json.dump({'proj': proj, 'modules': modules, 'mains': mains, 'depends_templates': True}, f)
 	e = dict(os.environ, PYTHONHASHSEED=hashseed, VERIF_REPO=env.REPO, VERIF_SCRATCH=scratch)
 	p = subprocess.run([sys.executable, os.path.join(env.VERIF_DIR, 'vf', 'ref_transpile.py'), job], capture_output=True, text=True, env=e, timeout=300)
 	if p.returncode != 0:
@@ -76,7 +77,7 @@ def judge(scratch: str, case: dict, hashseeds: tuple = ('0',)) -> tuple[list[tup
 	from rogw.tranp.semantics.reflections import Reflections
 	from vf import sut
 	work = tempfile.mkdtemp(prefix='c04-', dir=scratch)
-	info = {'reload': False, 'two_mains': False, 'after_other': False, 'steps': 0}
+	info = {'reload': False, 'two_mains': False, 'after_other': False, 'steps': 0, 'rejected': False}
 	fails: list[tuple[str, str]] = []
 	try:
 		proj = os.path.join(work, 'proj')
@@ -96,7 +97,7 @@ def judge(scratch: str, case: dict, hashseeds: tuple = ('0',)) -> tuple[list[tup
 				fails.append(('hashseed-dependent-output', f'PYTHONHASHSEED={hs} changes the output of {which}'))
 		if any(str(v).startswith('ERROR') for v in list(ref['modules'].values()) + ref['mains']):
 			return [('OUT', 'pool-rejected')], info
-		a = sut.MemApp(work, extra_source_dirs=[proj])
+		a = sut.MemApp(work, extra_source_dirs=[proj], depends_templates=True)  # list/dict type templates emit include dependencies: the per-transpile stack is observable
 		reflections = a.resolve(Reflections)
 		db = a.resolve(SymbolDB)
 		loaded: set[str] = set()
@@ -149,7 +150,7 @@ def judge(scratch: str, case: dict, hashseeds: tuple = ('0',)) -> tuple[list[tup
 			info['steps'] += 1
 			trace.append(f'{kind}({m if kind not in ("main",) else v})')
 			dep = bool(case.get('c_imports_a'))  # C is a second importer of A
-			touched = {'__main__'} if kind == 'main' else ({A, B} | ({C} if dep else set()) if kind == 'raw_unload_dep' or (kind == 'unload' and (m != C or dep)) else {m})
+			touched = {'__main__'} if kind in ('main', 'rejected_main') else ({A, B} | ({C} if dep else set()) if kind == 'raw_unload_dep' or (kind == 'unload' and (m != C or dep)) else {m})
 			if kind in ('load', 'transpile') and (m == B or (m == C and dep)) and A not in loaded:
 				touched.add(A)  # loading an importer loads A
 			if kind == 'main' and v == 2 and A not in loaded:
@@ -197,6 +198,15 @@ def judge(scratch: str, case: dict, hashseeds: tuple = ('0',)) -> tuple[list[tup
 							for x in (B, A):
 								a.modules.unload(x)
 								loaded.discard(x)
+				elif kind == 'rejected_main':
+					# an interactive submission the transpiler rejects half-way: the session must go on as if it had not happened
+					a.source_provider.source_code = REJECTED_MAIN
+					a.modules.unload('__main__')
+					try:
+						a.transpiler.transpile(a.modules.load('__main__').entrypoint)
+						raise core.HarnessError('the ill-typed submission was accepted')
+					except Errors.Error:
+						info['rejected'] = True
 				elif kind == 'main':
 					a.source_provider.source_code = case['mains'][v]
 					a.modules.unload('__main__')
@@ -232,7 +242,7 @@ def judge(scratch: str, case: dict, hashseeds: tuple = ('0',)) -> tuple[list[tup
 								rnd.choice([lambda: n.parent, lambda: n._children(), lambda: n.tokens, lambda: n.procedural(), lambda: [getattr(n, k) for k in n.prop_keys()]])()
 							except Errors.Error:
 								pass
-				check_untouched(m if kind != 'main' else '__main__')
+				check_untouched(m if kind not in ('main', 'rejected_main') else '__main__')
 			except Errors.Error as e:
 				fails.append((f'session:raises:{type(e).__name__}', f'{kind}({m}): {type(e).__name__}: {str(e)[:200]}\n  session: {"; ".join(trace)}'))
 		return fails, info
@@ -241,7 +251,7 @@ def judge(scratch: str, case: dict, hashseeds: tuple = ('0',)) -> tuple[list[tup
 
 
 def shard(ctx: core.Ctx) -> None:
-	exclude = frozenset(e['exclude_flag'] for e in core.load_known('C01') if e.get('status') == 'known' and e.get('exclude_flag')) | frozenset(ctx.excluded)
+	exclude = core.frontend_exclusions() | frozenset(ctx.excluded)
 	counter = [0]
 
 	def body(case: dict) -> None:
@@ -255,7 +265,7 @@ def shard(ctx: core.Ctx) -> None:
 		ctx.extra['steps'] = ctx.extra.get('steps', 0) + info['steps']
 		nontrivial = (info['reload'] or info['two_mains']) and info['after_other']
 		ctx.case([case['a'], case['b'], case.get('names'), case['ops']], nontrivial, sample={'operations': [f'{o[0]}({o[1] if o[0] != "main" else o[2]})' for o in case['ops']]},
-			labels=['session'] + (['sibling-importers'] if case.get('c_imports_a') else []) + (['prefix-related-paths'] if case.get('names') and case['names'][0] != 'hma' else []) + [k for k in ('reload', 'two_mains', 'after_other') if info[k]] + (['hashseeds'] if len(seeds) > 1 else []))
+			labels=['session'] + (['sibling-importers'] if case.get('c_imports_a') else []) + (['prefix-related-paths'] if case.get('names') and case['names'][0] != 'hma' else []) + [k for k in ('reload', 'two_mains', 'after_other', 'rejected') if info[k]] + (['hashseeds'] if len(seeds) > 1 else []))
 		for sig, detail in fails:
 			ctx.fail(sig, detail, case)
 
